@@ -4,6 +4,7 @@ import GoMailModel.Codec.EncodedWord
 import GoMailModel.Mime.Fold
 import GoMailModel.Mime.Body
 import Driver.MsgOps
+import Driver.SmtpOps
 /-
   gmdriver: one operation per input line, one reply line per operation.
   Every reply is computed by the executable model definitions the theorems are about.
@@ -13,6 +14,7 @@ open GoMail GoMail.Proto
 def handle (toks : List String) : String :=
   match toks with
   | "msg" :: ops => MsgOps.handle ops
+  | "smtp" :: ops => SmtpOps.handle ops
   | ["lb", chunks] =>
     match decList chunks with
     | some cs => encBytes (LineBreaker.close (LineBreaker.writeAll [] [] (by decide) cs))
